@@ -70,24 +70,26 @@ Section GC.
               let walked1 := if mt_index (d_mt d) || mt_image (d_mt d) then d_dig d :: walked else walked in
               let v := match assoc (d_dig d) blobs with Some b => blob_view E (b_data b) | None => jbad end in
               let requeue w := match assoc (d_dig d) subjects with Some r => w ++ [r] | None => w end in
+              (* the referrers response of a subject is queued once: its entry leaves the map *)
+              let subjects1 := assoc_del (d_dig d) subjects in
               if mt_index (d_mt d) then
-                if j_ok_i v then mark f (requeue (work' ++ j_manifests v)) subjects seen1 walked1 inidx'
+                if j_ok_i v then mark f (requeue (work' ++ j_manifests v)) subjects1 seen1 walked1 inidx'
                 else mark f work' subjects seen1 walked1 inidx'   (* decode error: `continue`, the referrers are not queued *)
               else if mt_image (d_mt d) then
                 if j_ok_m v then
                   let seen2 := (match j_config v with Some c => d_dig c | None => "" end)
                                  :: map d_dig (j_layers v) ++ seen1 in
-                  mark f (requeue work') subjects seen2 walked1 inidx'
+                  mark f (requeue work') subjects1 seen2 walked1 inidx'
                 else mark f work' subjects seen1 walked1 inidx'
-              else mark f (requeue work') subjects seen1 walked1 inidx'
+              else mark f (requeue work') subjects1 seen1 walked1 inidx'
         end
     end.
 
   (* every iteration pops one descriptor; descriptors are pushed only when a manifest is parsed for the
-     first time (the children it lists) or when a descriptor with a referrers response is popped (one response);
-     unknown media types are not recorded as walked and may be popped once per push *)
+     first time (the children it lists) or when a descriptor with a referrers response is popped (that response, once:
+     its entry then leaves the map); that this fuel always suffices is mark_terminates (GCProofs.v) *)
   Definition mark_fuel (i : index) : nat :=
-    List.length (top i)
+    2 * List.length (top i)
     + 2 * fold_right (fun b n => List.length (j_manifests (blob_view E (b_data (snd b)))) + 2 + n) 0 blobs + 1.
 
   (* index.GetDesc(d) succeeds (d comes from the blob list: never a tag); digests of generated
